@@ -79,7 +79,10 @@ def main():
     withdrawn = {os.path.basename(d): json.load(open(os.path.join(d, "meta.json"))).get("withdrawn") for d in dirs}
     dirs = [d for d in dirs if not withdrawn[os.path.basename(d)]]
     if "--report-only" in a:  # rewrite MATRIX.md from the outcomes stored in the meta.json files
-        res = [(os.path.basename(d), json.load(open(os.path.join(d, "meta.json"))).get("matrix", {})) for d in dirs]
+        res = []
+        for d in dirs:  # changes stored after the last full matrix run carry the outcome of their confirmation run under "results"
+            mj = json.load(open(os.path.join(d, "meta.json")))
+            res.append((os.path.basename(d), mj.get("matrix") or mj.get("results", {})))
     else:
         with ThreadPoolExecutor(max_workers=jobs) as ex:
             res = list(ex.map(lambda d: one(d, tier), dirs))
